@@ -92,6 +92,18 @@ impl From<ArcIri> for RdfTerm {
 
 /// Convert a quad produced by `json_ld`, checking what [`ArcVoc`](crate::vocabulary::ArcVoc) could not check.
 pub fn try_convert_quad(q: RdfQuad) -> Result<Spog<RdfTerm>, crate::JsonLdError> {
+    // `rdf_types::BlankId` follows N-Triples 1.1 (PN_CHARS_U includes ':'), Sophia's `BnodeId` follows Turtle
+    let ids = [Some(&q.0), Some(&q.1), q.3.as_ref()];
+    let obj = if let Term::Id(id) = &q.2 {
+        Some(id)
+    } else {
+        None
+    };
+    for id in ids.into_iter().flatten().chain(obj) {
+        if let Id::Blank(bnode) = id {
+            sophia_api::term::BnodeId::new(&bnode[2..])?;
+        }
+    }
     if let Term::Literal(lit) = &q.2 {
         if let Type::LangString(tag) = lit.type_() {
             sophia_api::term::LanguageTag::new(tag.as_str())?;
